@@ -27,6 +27,7 @@ import (
 	"strings"
 
 	"github.com/metrico/qryn/reader/logql/logql_parser"
+	"github.com/metrico/qryn/reader/logql/logql_transpiler_v2/shared"
 	sql "github.com/metrico/qryn/reader/utils/sql_select"
 	"verif/harness/coqx"
 	"verif/harness/hx"
@@ -77,6 +78,8 @@ type Case struct {
 	TreeML string `json:"tree_ml,omitempty"`
 	ReML   string `json:"re_ml,omitempty"`
 	PfML   string `json:"pf_ml,omitempty"`
+	JgML   string `json:"jg_ml,omitempty"`
+	Stages []string `json:"stages,omitempty"` // line | label | json | drop, in pipeline order
 	DbsML  string `json:"dbs_ml,omitempty"`
 	Dbs    []DB   `json:"dbs,omitempty"`
 }
@@ -144,7 +147,86 @@ func genLF(r *rand.Rand, depth int) string {
 	}
 	return head
 }
+func genFilter(r *rand.Rand, class *[]string) string {
+	if r.Intn(5) < 2 {
+		*class = append(*class, "linefilter")
+		op := []string{"|=", "!=", "|~", "!~"}[r.Intn(4)]
+		return " " + op + " " + quoted(r, val(r))
+	}
+	*class = append(*class, "labelfilter")
+	return " | " + genLF(r, 0)
+}
+
+var jsonPaths = []string{"a", "a.b", "level", "msg", "x.y.z", `["k 1"]`, `a["b"].c`, "n"}
+
+func genJson(r *rand.Rand, class *[]string) string {
+	*class = append(*class, "json")
+	n := 1 + r.Intn(3)
+	var ps []string
+	used := map[string]bool{}
+	for i := 0; i < n; i++ {
+		l := pick(r, labelNames)
+		if used[l] {
+			continue
+		}
+		used[l] = true
+		ps = append(ps, l+"="+quoted(r, pick(r, jsonPaths)))
+	}
+	return " | json " + strings.Join(ps, ", ")
+}
+
+func genDrop(r *rand.Rand, class *[]string) string {
+	*class = append(*class, "drop")
+	n := 1 + r.Intn(2)
+	var ps []string
+	for i := 0; i < n; i++ {
+		if r.Intn(2) == 0 {
+			ps = append(ps, pick(r, labelNames))
+		} else {
+			ps = append(ps, pick(r, labelNames)+"="+quoted(r, val(r)))
+		}
+	}
+	return " | drop " + strings.Join(ps, ",")
+}
+
+// queries with json parameters and drop: mostly in the order the theorem covers (filters ; json+ ; drop* ;
+// filters*), sometimes in any order (where the planners are known to deviate)
+func genParserQuery(r *rand.Rand) (string, []string) {
+	var class []string
+	q := genMatchers(r)
+	if r.Intn(4) == 0 {
+		n := 1 + r.Intn(4)
+		for i := 0; i < n; i++ {
+			switch r.Intn(4) {
+			case 0:
+				q += genJson(r, &class)
+			case 1:
+				q += genDrop(r, &class)
+			default:
+				q += genFilter(r, &class)
+			}
+		}
+		return q, append(class, "anyorder")
+	}
+	for i := r.Intn(3); i > 0; i-- {
+		q += genFilter(r, &class)
+	}
+	for i := 1 + r.Intn(2); i > 0; i-- {
+		q += genJson(r, &class)
+	}
+	for i := r.Intn(2); i > 0; i-- {
+		q += genDrop(r, &class)
+	}
+	for i := r.Intn(3); i > 0; i-- {
+		q += genFilter(r, &class)
+	}
+	return q, class
+}
+
 func genQuery(r *rand.Rand) (string, []string) {
+	if r.Intn(5) < 2 {
+		return genParserQuery(r)
+	}
 	var class []string
 	q := genMatchers(r)
 	n := []int{0, 1, 1, 2, 2, 3, 4}[r.Intn(7)]
@@ -171,6 +253,13 @@ type qinfo struct {
 	nums      []string // numeric literals, and the text sql.FloatVal prints for them
 	nmatch    int
 	cons      []constraint // every comparison on a label (matchers and label filters)
+	jparams   []jparam     // json parameters: label and split path
+	stages    []string
+}
+
+type jparam struct {
+	label string
+	path  []string
 }
 
 type constraint struct {
@@ -293,12 +382,37 @@ func info(script *logql_parser.LogQLScript) *qinfo {
 		switch {
 		case p.LineFilter != nil:
 			v := unq(&p.LineFilter.Val)
+			qi.stages = append(qi.stages, "line")
 			qi.lineVals = append(qi.lineVals, v)
 			if p.LineFilter.Fn == "|~" || p.LineFilter.Fn == "!~" {
 				qi.patterns = append(qi.patterns, v)
 			}
 		case p.LabelFilter != nil:
+			qi.stages = append(qi.stages, "label")
 			qi.walkLF(p.LabelFilter)
+		case p.Parser != nil && p.Parser.Fn == "json" && len(p.Parser.ParserParams) > 0:
+			qi.stages = append(qi.stages, "json")
+			for _, pp := range p.Parser.ParserParams {
+				label := ""
+				if pp.Label != nil {
+					label = pp.Label.Name
+				}
+				path, err := shared.JsonPathParamToArray(unq(&pp.Val))
+				if err != nil {
+					return nil
+				}
+				qi.jparams = append(qi.jparams, jparam{label, path})
+				qi.addLabel(label, "")
+			}
+		case p.Drop != nil:
+			qi.stages = append(qi.stages, "drop")
+			for _, dp := range p.Drop.Params {
+				v := ""
+				if dp.Val != nil {
+					v = unq(dp.Val)
+				}
+				qi.addLabel(dp.Label.Name, v)
+			}
 		default:
 			return nil
 		}
@@ -400,6 +514,46 @@ func genDB(r *rand.Rand, qi *qinfo, c Ctx) DB {
 		}
 		lines = append(lines, v, "pre "+v+" post")
 	}
+	if len(qi.jparams) > 0 { // JSON documents carrying (or lacking) the extracted paths
+		plain := append([]string{}, lines...)
+		var docs []string
+		for k := 0; k < 6; k++ {
+			doc := map[string]interface{}{"msg": pick(r, plain)}
+			for _, jp := range qi.jparams {
+				if r.Intn(10) < 2 {
+					continue // the path is missing
+				}
+				cands := valsFor(jp.label)
+				best, bestN := cands[r.Intn(len(cands))], -1
+				for try := 0; try < 16; try++ {
+					w := cands[r.Intn(len(cands))]
+					n := 0
+					for _, cn := range qi.cons {
+						if cn.name == jp.label && cn.holds(w) {
+							n++
+						}
+					}
+					if n > bestN {
+						best, bestN = w, n
+					}
+				}
+				var v interface{} = best
+				if f, err := strconv.ParseFloat(best, 64); err == nil && r.Intn(3) == 0 && !math.IsNaN(f) && !math.IsInf(f, 0) {
+					v = json.Number(best) // a JSON number: extracted as raw text
+				} else if r.Intn(12) == 0 {
+					v = map[string]interface{}{"nested": best}
+				}
+				setPath(doc, jp.path, v)
+			}
+			b, err := json.Marshal(doc)
+			if err == nil && json.Valid(b) {
+				docs = append(docs, string(b))
+			}
+		}
+		docs = append(docs, "{not json", `{"msg":"x"}`)
+		lines = append(docs, docs...)
+		lines = append(lines, plain[r.Intn(len(plain))])
+	}
 	span := c.ToNs - c.FromNs
 	tss := []int64{c.FromNs - 1, c.FromNs, c.FromNs + 1, c.FromNs + span/2, c.ToNs - 1, c.ToNs, c.ToNs + 1, c.FromNs + span/2, c.FromNs + span/3}
 	nsam := 1 + r.Intn(4)
@@ -419,6 +573,81 @@ func genDB(r *rand.Rand, qi *qinfo, c Ctx) DB {
 		db.Samples = append(db.Samples, Sample{Fp: t.Fp, Ts: tss[r.Intn(len(tss))], Line: pick(r, lines), Type: t.Type})
 	}
 	return db
+}
+
+// setPath writes v at the nested object path (every path element is an object key: the planner quotes
+// array indexes too)
+func setPath(doc map[string]interface{}, path []string, v interface{}) {
+	cur := doc
+	for i, k := range path {
+		if i == len(path)-1 {
+			cur[k] = v
+			return
+		}
+		next, ok := cur[k].(map[string]interface{})
+		if !ok {
+			next = map[string]interface{}{}
+			cur[k] = next
+		}
+		cur = next
+	}
+}
+
+// jsonGet is the oracle for if(JSONType(doc, path...) == 'String', JSONExtractString(doc, path...),
+// JSONExtractRaw(doc, path...)): every path element is a string, i.e. an object key; a string value is
+// returned unquoted, any other value as its text, nothing ('') when the document is not JSON or the path is
+// missing. (The trusted reading of those ClickHouse functions for the failing-input search.)
+func jsonGet(line string, path []string) string {
+	var cur json.RawMessage = json.RawMessage(line)
+	if !json.Valid(cur) {
+		return ""
+	}
+	for _, k := range path {
+		var obj map[string]json.RawMessage
+		if err := json.Unmarshal(cur, &obj); err != nil {
+			return ""
+		}
+		next, ok := obj[k]
+		if !ok {
+			return ""
+		}
+		cur = next
+	}
+	var s string
+	if err := json.Unmarshal(cur, &s); err == nil && len(cur) > 0 && cur[0] == '"' {
+		return s
+	}
+	if string(cur) == "null" {
+		return ""
+	}
+	return string(cur)
+}
+
+func jgTable(qi *qinfo, dbs []DB) string {
+	seenL := map[string]bool{}
+	var res []string
+	for _, db := range dbs {
+		for _, x := range db.Samples {
+			if seenL[x.Line] {
+				continue
+			}
+			seenL[x.Line] = true
+			seenP := map[string]bool{}
+			for _, jp := range qi.jparams {
+				key := strings.Join(jp.path, "\x00")
+				if seenP[key] {
+					continue
+				}
+				seenP[key] = true
+				var ps []string
+				for _, p := range jp.path {
+					ps = append(ps, y.Str(p))
+				}
+				res = append(res, y.Pair(y.Pair(y.Str(x.Line), y.List(ps)), y.Str(jsonGet(x.Line, jp.path))))
+			}
+		}
+	}
+	return y.List(res)
 }
 
 // ---------------------------------------------------------------- OCaml terms
@@ -452,6 +681,9 @@ func oracles(qi *qinfo, dbs []DB) (reML, pfML string, err error) {
 		}
 		for _, x := range db.Samples {
 			subj[x.Line] = true
+			for _, jp := range qi.jparams { // extracted values become label values
+				subj[jsonGet(x.Line, jp.path)] = true
+			}
 		}
 	}
 	var subjects []string
@@ -672,6 +904,8 @@ func enrich(c *Case, seed int64, ndb int) {
 		c.Dbs = nil
 		return
 	}
+	c.JgML = jgTable(qi, c.Dbs)
+	c.Stages = qi.stages
 	var ds []string
 	for _, d := range c.Dbs {
 		ds = append(ds, dbML(d))
